@@ -1,2 +1,9 @@
 #!/bin/sh
-exit 0
+# Build the engine offline from /verif/engine (go1.26.8 + golang.org/x/tools v0.50.0 from the module cache).
+set -e
+cd "$(dirname "$0")"
+export PATH=/opt/veriftools/go1.26.8/bin:$PATH
+export GOTOOLCHAIN=local GOFLAGS=-mod=mod GOPROXY=off GONOSUMDB='*' GONOSUMCHECK=1
+mkdir -p bin evidence/replay
+(cd engine && go build -o ../bin/vx .)
+echo "vx built: $(ls -la bin/vx | awk '{print $5}') bytes"
